@@ -259,6 +259,23 @@ func (c *glCtx) expr(e ast.Expr) (string, string) {
 		}
 	}
 	switch x := e.(type) {
+	case *ast.CompositeLit:
+		// `[]T{a, b, …}` (no keys): the list of the translated elements
+		if at, ok := x.Type.(*ast.ArrayType); ok && at.Len == nil {
+			ety := normInt(c.p.str(at.Elt))
+			var parts []string
+			for _, el := range x.Elts {
+				if _, keyed := el.(*ast.KeyValueExpr); keyed {
+					c.fail(x, "keyed slice literal")
+				}
+				s, ty := c.expr(el)
+				if ty != ety {
+					c.fail(x, "slice literal of %s with an element of type %s", ety, ty)
+				}
+				parts = append(parts, s)
+			}
+			return "[" + strings.Join(parts, ", ") + "]", "[]" + ety
+		}
 	case *ast.ParenExpr:
 		s, ty := c.expr(x.X)
 		return "(" + s + ")", ty
